@@ -40,6 +40,7 @@ type worker struct {
 	state  int32
 	resume chan struct{}
 	local  int64
+	at     int // function of the scheduling point it is parked at (-1: not started)
 }
 
 type policy struct {
@@ -73,7 +74,8 @@ type sched struct {
 	lockSw      int
 	foreign     int
 	touch       map[int]int
-	streak      int // consecutive failed lock attempts with no statement executed in between
+	pairs       map[uint64]bool // (function switched away from, function the resumed hand is parked in)
+	streak      int             // consecutive failed lock attempts with no statement executed in between
 	deadlockWhy string
 }
 
@@ -242,6 +244,11 @@ func (s *sched) switchTo(me *worker, want int, kind string, fid int) {
 	if kind == "y" {
 		s.vol++
 	}
+	me.at = fid
+	if s.pairs == nil {
+		s.pairs = map[uint64]bool{}
+	}
+	s.pairs[sim.Mix(uint64(fid+2), uint64(t.at+2))] = true
 	s.rec = append(s.rec, Switch{Kind: kind, W: me.id, At: me.local, To: t.id, Fn: fid})
 	s.cur = t
 	t.state = wRunning
@@ -289,7 +296,7 @@ func (s *sched) run(fns []func()) {
 	s.byGo = map[int64]*worker{}
 	ready := make(chan struct{}, len(fns))
 	for i, fn := range fns {
-		w := &worker{id: i, resume: make(chan struct{}), state: wParked}
+		w := &worker{id: i, resume: make(chan struct{}), state: wParked, at: -1}
 		s.ws = append(s.ws, w)
 		fn := fn
 		go func() {
